@@ -341,6 +341,27 @@ class Interp:
             return self._try(st, ctx, path)
         if op == "raise":
             raise self._mk_exc(st["exc"])
+        if op == "threads":
+            # several user threads issuing operations on the SAME context (the SDK's ordered counter exists for this)
+            import threading as _th
+
+            outs: dict = {}
+            errs: dict = {}
+
+            def worker(i, stmts):
+                try:
+                    outs[i] = self.block(stmts, ctx, f"{path}/T{i}")
+                except BaseException as e:  # noqa: BLE001
+                    errs[i] = e
+
+            ths = [_th.Thread(target=worker, args=(i, b_)) for i, b_ in enumerate(st["bodies"])]
+            for t_ in ths:
+                t_.start()
+            for t_ in ths:
+                t_.join()
+            for e in errs.values():
+                raise e
+            return [outs.get(i) for i in range(len(ths))]
         if op == "gate":
             # block (virtually) until the world's gate opens - used to hold a branch inside user code
             g = st["gate"]
@@ -672,6 +693,8 @@ class Interp:
 def _chooser_for(case, inv):
     specs = case.get("sched") or [{"mode": "seq"}]
     spec = specs[min(inv, len(specs) - 1)]
+    if spec.get("mode") == "linepreempt" and inv >= len(specs):
+        spec = {"mode": "seq"}
     if spec.get("mode") in ("walk", "pct") and inv >= len(specs):
         spec = {**spec, "seed": spec.get("seed", 0) + inv}
     return D.make_chooser(spec)
@@ -762,8 +785,11 @@ def run_execution(case: dict, *, max_invocations: int | None = None, hooks: dict
             event = backend.start_invocation()
             if case.get("event_mutation"):
                 event = _mutate_event(event, case["event_mutation"])
-            sched = D.Scheduler(_chooser_for(case, inv), time_cap=case.get("time_cap", 400.0), step_cap=case.get("step_cap", 300_000),
+            chooser = _chooser_for(case, inv)
+            sched = D.Scheduler(chooser, time_cap=case.get("time_cap", 400.0), step_cap=case.get("step_cap", 300_000),
                                 randoms=case.get("randoms", ()), start_time=backend.now)
+            if isinstance(chooser, D.LinePreempt):
+                sched.on_yield = chooser.on_yield
             sched.line_mode = bool(line_mods)
             sched.capture_dump = bool(case.get("capture_dump"))
             interp = Interp(case, run, backend, world)
@@ -792,6 +818,7 @@ def run_execution(case: dict, *, max_invocations: int | None = None, hooks: dict
             rec.update({"sched": sched.outcome, "steps": sched.step, "t1": backend.now, "trace": list(sched.trace), "api_calls": boto.n,
                         "calls_after_failure": boto.calls_after_failure, "failed_at": boto.failed_at,
                         "deadlock_info": sched.deadlock_info, "switches": sched.switches, "abort_dump": sched.abort_dump,
+                        "line_yields": getattr(chooser, "total", None),
                         "task_excs": [(t.name, type(t.exc).__name__, str(t.exc)[:200]) for t in sched.tasks if t.exc is not None and t is not sched.root],
                         "live_after_return": [t.name for t in sched.tasks if getattr(t, "_live_at_root_end", False)]})
             rec["active_user_at_end"] = snap.get("active", [])
